@@ -69,6 +69,13 @@ func unmodelled(t *valgen.Ty, gt *valgen.GT) bool {
 	return hasTag(gs, "mset", "iface") && !(t.Name == "tuple" && gt.Name == "slice")
 }
 
+// unmodelledLeaf: the leaf combinations the model does not describe (standard-library formatting / UUID timestamps)
+func unmodelledLeaf(t *valgen.Ty, gt *valgen.GT) bool {
+	ts, gs := " "+t.String()+" ", " "+gt.String()+" "
+	return (strings.Contains(ts, " timeuuid ") && strings.Contains(gs, " time ")) ||
+		(strings.Contains(ts, " date ") && strings.Contains(gs, " string "))
+}
+
 func main() {
 	mode, tier, path := vh.Args()
 	if mode == "replay" {
@@ -91,6 +98,30 @@ func main() {
 	}
 	for _, op := range fixedOps {
 		emit(op, "fixed/"+strings.Fields(op)[0])
+	}
+	// sizes and counts on both sides of every width boundary of both collection framings
+	for _, c := range g.BoundaryCases(tier) {
+		tv := fmt.Sprintf("%d %s %s", c.Proto, c.T.String(), c.V.String())
+		if !c.EncodeOnly {
+			emit("rt "+tv+" "+c.GT.String(), c.Class+"/rt")
+		}
+		if valgen.RTCleanAny(c.Proto, c.T, c.GT, c.V) {
+			emit("rtsame "+tv+" "+c.GT.String(), c.Class+"/rtsame")
+		}
+	}
+	// the same-type round trip through tuples, UDTs and collections nested in / around them (null, empty and zero
+	// fields; pointer and non-pointer fields; struct / []interface{} / slice / array / map[string]interface{})
+	for i := 0; i < n/3; i++ {
+		depth := []int{1, 1, 1, 2, 2, 3}[r.Intn(6)]
+		p, t, gt, v := g.RTCase(depth)
+		if unmodelledLeaf(t, gt) {
+			continue
+		}
+		tv := fmt.Sprintf("%d %s %s", p, t.String(), v.String())
+		emit("rt "+tv+" "+gt.String(), "rt-shape/"+sizeClass(t))
+		if valgen.RTCleanAny(p, t, gt, v) {
+			emit("rtsame "+tv+" "+gt.String(), "rtsame-shape/"+sizeClass(t)+"/"+gt.Name)
+		}
 	}
 	for i := 0; i < n; i++ {
 		depth := []int{0, 0, 0, 0, 0, 1, 1, 1, 2, 3}[r.Intn(10)]
